@@ -16,6 +16,9 @@ from .. import core
 from ..gen import layout
 
 ZOO = [
+    # several alternatives for one read, some bound later on the line of the read (one-line loops and branches)
+    't = 0\nwhile t < 9: print(t); t = t + 1\nif t: u = 1; print(u, t)\nelse: u = 2\nfor i in range(3): print(i, u); u = i\n'
+    'def f(n, acc=None):\n    while n: acc = [n, acc]; n = n - 1; print(acc, n)\n    return acc\nprint(t, u, f)\n',
     # one-letter names that also occur inside the keywords before them; tabs and continuation lines after def / class
     'async def d(e):\n    return e\nasync def f(a):\n    return a\nclass s(object):\n    pass\nclass c:\n    a = 1\n'
     'def\tname(l):\n    return l\nclass\tKlass2:\n    pass\ndef \\\n  cont(x):\n    return x\nclass \\\n  Cont2:\n    pass\n'
